@@ -406,7 +406,7 @@ def evalE : Nat → Expr → Nat → Bool → Store → ER
       (evalList f es env repl σ).bind fun p σ1 =>
         if p.2 ≠ .none then .ok (.nil, p.2) σ1
         else .ok ((σ1.newArr p.1).2, .none) (σ1.newArr p.1).1
-    | .objectLit ps =>
+    | .objectLit ps _ =>
       (evalProps f (effectiveProps ps) env repl σ).bind fun p σ1 =>
         if p.2 ≠ .none then .ok (.nil, p.2) σ1
         else .ok ((σ1.newObj p.1).2, .none) (σ1.newObj p.1).1
